@@ -204,6 +204,9 @@ pub fn fold(evs: &[Ev], resolve: &Resolver, last_position: bool) -> Result<Vec<M
             Ev::DocStart(_) => {
                 in_doc = true;
                 root = None;
+                // anchors are scoped to their document (a stale entry must not satisfy an alias
+                // to a still-open node of a later document)
+                anchors.clear();
             }
             Ev::DocEnd => {
                 if !in_doc {
